@@ -34,7 +34,8 @@ func init() {
 		Stub: []string{"host.Host/network (simhost, shared by both instances)", "two pb.MessageSenders (level A; told apart by protocol list)", "remote peers (scripted responders, WAN: public addresses, LAN: private addresses)", "record validator (harness rank validator, time-aware)"},
 		Faults: []string{"fault_rec_invalid", "fault_rec_miskeyed", "fault_rec_empty", "fault_rpc_error", "fault_dial_fail", "fault_cancel", "time_advance",
 			"probe_found", "probe_notfound", "probe_stream_multi", "probe_dual_both_sides_answered", "probe_local_valid", "probe_local_expired", "probe_local_expired_midsearch", "probe_peer_serves_local_bytes_valid", "probe_peer_serves_local_bytes_expired_at_start", "probe_peer_serves_local_bytes_expired_midsearch",
-			"probe_opt_offline", "probe_opt_expired", "probe_opt_offline_local_not_valid", "probe_local_never_valid", "probe_local_outlived_max_age", "probe_stamp_valid_value_held_past_requesters_max_age", "probe_stamp_valid_value_from_the_future", "probe_stamp_valid_value_unparsable"},
+			"probe_opt_offline", "probe_opt_expired", "probe_opt_offline_local_not_valid", "probe_local_never_valid", "probe_local_outlived_max_age", "probe_stamp_valid_value_held_past_requesters_max_age", "probe_stamp_valid_value_from_the_future", "probe_stamp_valid_value_unparsable",
+			"probe_key_outside_namespaces", "probe_key_outside_record_acceptable_to_unregistered_validator", "probe_key_outside_local_record", "probe_no_starting_points", "probe_no_starting_points_local_valid"},
 	})
 }
 
@@ -51,7 +52,7 @@ func c04BuildDual(w *c04World) error {
 	s := w.s
 	w.host = simhost.New(s, w.u.Self.ID, w.u.Self.Addrs, w.u.Name)
 	dsWan, dsLan := simds.New(s, "ds-wan"), simds.New(s, "ds-lan")
-	common := append(c04Opts(w.val, w.cfg.MaxAge),
+	common := append(c04Opts(w.clientValidator(), w.cfg.MaxAge),
 		dht.Mode(dht.ModeClient),
 		dht.BucketSize(w.cfg.K),
 		dht.Concurrency(w.cfg.Alpha),
@@ -85,6 +86,7 @@ func c04BuildDual(w *c04World) error {
 			a, b := c04PlantIn(dsWan, key, old, m), c04PlantIn(dsLan, key, old, m)
 			return a || b
 		},
+		dss: c04DSS(dsWan, dsLan),
 		close: func() {
 			_ = d.Close()
 			_ = w.host.Close()
@@ -136,6 +138,8 @@ func c04DualResponders(w *c04World, real []*simnet.Peer) {
 		if len(seeds) == 0 {
 			seeds = []*simnet.Peer{grp[rng.Intn(len(grp))]}
 		}
-		w.sut.seed(seeds)
+		if w.cfg.NoPeers == 0 { // else: both routing tables stay empty
+			w.sut.seed(seeds)
+		}
 	}
 }
